@@ -123,7 +123,20 @@ def run(ctx):
         crlf = 'sample\r\nrun2.fasta'
         files[len(files)] = (crlf, W.write_fasta(os.path.join(qdir, crlf), pool[4]['contigs']))
         pool.append(dict(name=crlf, contigs=pool[4]['contigs']))
-        n_special = 5
+        # a name with a `..` step behind a symbolic link to a directory: the operating system resolves `link/..` to the parent of the link's
+        # TARGET, where the genome is; a different genome with the same name sits where a textual clean-up of the path would look
+        os.makedirs(os.path.join(tmp, 'elsewhere', 'deep'))
+        os.symlink(os.path.join(tmp, 'elsewhere', 'deep'), os.path.join(qdir, 'via'))
+        W.write_fasta(os.path.join(tmp, 'elsewhere', 'detour sample.fasta'), pool[5]['contigs'])
+        W.write_fasta(os.path.join(qdir, 'detour sample.fasta'), pool[1]['contigs'])
+        dot = 'via/../detour sample.fasta'
+        files[len(files)] = (dot, os.path.join(qdir, dot))
+        pool.append(dict(name=dot, contigs=pool[5]['contigs']))
+        # ... and one with redundant `.` and doubled separators (same file, other spelling)
+        dot2 = './/run1/.//sample.fasta'
+        W.write_fasta(os.path.join(qdir, 'run1', 'sample.fasta'), pool[0]['contigs'])
+        files[len(files)] = (dot2, os.path.join(qdir, dot2))
+        pool.append(dict(name=dot2, contigs=pool[0]['contigs']))
         for nm, qi in (('run1/sample.fasta', 0), ('run2/sample.fasta', 4), ('x.fa', 2), ('x.fasta', 3)):
             files[len(files)] = (nm, W.write_fasta(os.path.join(qdir, nm), pool[qi]['contigs']))
             pool.append(dict(name=nm, contigs=pool[qi]['contigs']))
